@@ -31,7 +31,9 @@ LEVEL_TEXT = ("Lean 4 proofs over EVERY schedule of the repaired runner: timeout
               "before any kill => never killed, never timed out, own exit status, ordinary outcome), timeout_reported_promptly (kill issued, "
               "no grandchild holding the pipes => every sequence of more than mu fair rounds ends the run with the timed-out failure; "
               "composition with C08), timed_out_means_killed, "
-              "kills_at_most_once, kills_eq_issued, no_timeout_no_kill, cancelled_never_kills, expiry_kills, late_expiry_kills_nothing; the "
+              "kills_at_most_once, kills_eq_issued, no_timeout_no_kill, cancelled_never_kills, expiry_kills, late_expiry_kills_nothing, "
+              "reused_runner_times_out_like_fresh (regenerated RunnerState tables: nothing but inert leftovers carried into a next run; an "
+              "overrunning second run is killed and reported like on a fresh object); the "
               "three race schedules of the former finding #26 are replayed by decide (race_*_repaired); the residual window (command ended "
               "but not yet polled when the timer fires) is witnessed by exit_unseen_at_expiry_counterexample and recorded as a known "
               "finding; the transition system is tied to Runner.start_timer/timed_out/stop/_finish/wait/_disarm_timer_if_timely and "
